@@ -6,10 +6,13 @@
 # 3. applies the patch to /repo, runs the property's check (quick) and any extra checks, restores /repo
 set -u
 ID=$1; V=$2; shift 2; EXTRA="$@"
-WT=/tmp/wt-$ID; SRC=$WT/SEEDED/$V; DST=/verif/seeded/$ID-$V
-mkdir -p $DST && cp $SRC/patch.diff $DST/patch.diff && cp $SRC/notes.md $DST/notes.md 2>/dev/null
-DEMO=$(ls $SRC | grep -i '^demo' | head -1); cp $SRC/$DEMO $DST/$DEMO
+# round 2: SEED_ROUND=2 reads /tmp/wt2-<Cxx>/SEEDED/<a|b> and stores it as seeded/<Cxx>-<c|d>
+if [ "${SEED_ROUND:-1}" = 2 ]; then WT=/tmp/wt2-$ID; DV=$(echo $V | tr ab cd); else WT=/tmp/wt-$ID; DV=$V; fi
+SRC=$WT/SEEDED/$V; DST=/verif/seeded/$ID-$DV
+mkdir -p $DST
+if [ -d $SRC ]; then cp $SRC/patch.diff $DST/patch.diff; cp $SRC/notes.md $DST/notes.md 2>/dev/null; DEMO=$(ls $SRC | grep -i '^demo' | head -1); cp $SRC/$DEMO $DST/$DEMO; else DEMO=$(ls $DST | grep -i '^demo\.' | head -1); fi
 export CARGO_NET_OFFLINE=true RUST_BACKTRACE=0 PYO3_PYTHON=/opt/veriftools/pyvenv/bin/python
+if [ "${SEED_SKIP_CONFIRM:-0}" = 1 ] && [ -f $DST/confirm.env ]; then . $DST/confirm.env; else
 cd $WT && git checkout -q -- . && rm -f sudachi/tests/seeded_demo_*.rs
 run_demo() { # returns 0 if demo passes
   case "$DEMO" in
@@ -27,13 +30,16 @@ SUITE_FAIL=$(grep -E "^test result" $DST/suite-patched.log | awk '{f+=$6} END {p
 SUITE_PASS=$(grep -E "^test result" $DST/suite-patched.log | awk '{p+=$4} END {print p+0}')
 git checkout -q -- .
 echo "demo clean rc=$CLEAN (want 0), patched rc=$PATCHED (want !=0), suite with patch: passed=$SUITE_PASS failed=$SUITE_FAIL"
+printf 'CLEAN=%s\nPATCHED=%s\nSUITE_PASS=%s\nSUITE_FAIL=%s\n' $CLEAN $PATCHED $SUITE_PASS $SUITE_FAIL > $DST/confirm.env
+fi
+[ "${SEED_SKIP_CHECKS:-0}" = 1 ] && exit 0
 # 3. our checks
 cd /verif
 git -C /repo diff --quiet || { echo "/repo dirty"; exit 3; }
 git -C /repo apply $DST/patch.diff || { echo "patch does not apply to /repo"; exit 3; }
 RESF=$(mktemp); : > $RESF
 for c in $ID $EXTRA; do
-  out=$(./check $c quick 2>&1); rc=$?
+  out=$(./check $c ${SEED_TIER:-quick} 2>&1); rc=$?
   first=$(echo "$out" | grep -aE "^FAIL|HANG|INCONCLUSIVE" | head -1 | python3 -c "import sys;print(sys.stdin.buffer.read().decode('utf-8','replace')[:300].replace('\\n',' ').strip())")
   echo "check $c rc=$rc $first"
   python3 - "$c" "$rc" "$first" >> $RESF <<'PY2'
@@ -43,7 +49,7 @@ print(json.dumps({"check":c,"exit":int(rc),"first_failure":first.encode("utf-8",
 PY2
 done
 git -C /repo checkout -- .
-python3 - "$ID" "$V" "$CLEAN" "$PATCHED" "$SUITE_PASS" "$SUITE_FAIL" "$RESF" <<'PY'
+python3 - "$ID" "$DV" "$CLEAN" "$PATCHED" "$SUITE_PASS" "$SUITE_FAIL" "$RESF" <<'PY'
 import json,sys
 id,v,clean,patched,sp,sf,res=[a.encode("utf-8","replace").decode("utf-8","replace") for a in sys.argv[1:8]]
 meta={"property":id,"variant":v,"patch":"patch.diff","demonstration":[f for f in __import__('os').listdir('/verif/seeded/%s-%s'%(id,v)) if f.startswith('demo.')],
